@@ -47,6 +47,69 @@ theorem notify_leads_to_production (c : Cfg) (hB : 1 ≤ c.block) (hI : 1 ≤ c.
   have h' := h (Or.inl rfl) (by simpa [flightEnd] using hd)
   simpa [flightEnd] using h'
 
+/-! ## The clause by the letter: "within one block interval after it is notified" -/
+
+/-- the clause as the property states it: in lazy mode a production starts no later than one block
+interval after the call of `NotifyNewTransactions`, whatever the loop is doing at that moment and
+however long productions take. -/
+def C17_notify_within_block_interval_full : Prop :=
+  ∀ (c : Cfg) (pre post : List In), c.lazy = true → 1 ≤ c.block → 1 ≤ c.idle →
+    let s := (run c init pre).1
+    s.now + c.block < (run c s (In.notify :: post)).1.now →
+    ∃ q, q ∈ (run c s (In.notify :: post)).2 ∧ s.now ≤ q ∧ q ≤ s.now + c.block
+
+/-- … which is false of the current code (of any sequential producer) when the production in flight
+is longer than the block interval: block 2 ms, idle 20 ms, a production of 10 ms started at 0 and a
+notification at 0, during it — the further block starts at 11 = end + 1 ms, not by 2. -/
+theorem notify_within_block_interval_fails : ¬ C17_notify_within_block_interval_full := by
+  intro h
+  have h' := h { block := 2, idle := 20, lazy := true } [In.tick 0 10] (List.replicate 16 (In.tick 0 1))
+    rfl (by decide) (by decide) (by decide)
+  obtain ⟨q, hq, _, h2⟩ := h'
+  have e : (run { block := 2, idle := 20, lazy := true }
+      (run { block := 2, idle := 20, lazy := true } init [In.tick 0 10]).1
+      (In.notify :: List.replicate 16 (In.tick 0 1))).2 = [11] := by decide
+  rw [e] at hq
+  have : q = 11 := by simpa using hq
+  have e2 : (run { block := 2, idle := 20, lazy := true } init [In.tick 0 10]).1.now = 0 := by decide
+  rw [e2] at h2
+  simp only [this] at h2
+  omega
+
+/-- **No lost wake-up, by the letter (partial).**  With the hypothesis that excludes the witness — the
+production in flight, if there is one, is shorter than the block interval — a pending notification is
+followed by a production start within one block interval of `now`. -/
+theorem no_lost_wakeup_within_block_interval (c : Cfg) (hB : 1 ≤ c.block) (hI : 1 ≤ c.idle)
+    (pre post : List In) :
+    let s := (run c init pre).1
+    Pending s → (∀ f, s.flight = some f → f.fin < f.start + c.block) →
+    s.now + c.block < (run c s post).1.now →
+    ∃ q, q ∈ (run c s post).2 ∧ s.now ≤ q ∧ flightEnd s ≤ q ∧ q ≤ s.now + c.block := by
+  intro s hp hs hd
+  have hi : Inv c s := inv_run hB hI pre init (inv_init c)
+  obtain ⟨q, hq, h1, h2⟩ := run_due c (WakeDue c (s.now + c.block)) _
+    (fun _ h => wake_now h)
+    (fun s i h ho => wake_tr hB hI h (step_tr c s i) ho)
+    post s (wake_of_pending_short hi hp hs) hd
+  exact ⟨q, hq, h1, run_out_ge_flightEnd c post s q hq, h2⟩
+
+/-- **Within one block interval after it is notified (partial)**: a call of `NotifyNewTransactions`
+in any reachable state in which no production longer than (or as long as) the block interval is in
+flight — in particular whenever the loop is waiting — is followed by a production start within one
+block interval of the call.  (Any duration: `notify_leads_to_production`, bound
+`max now endOfInFlight + block`.) -/
+theorem notify_within_block_interval_partial (c : Cfg) (hB : 1 ≤ c.block) (hI : 1 ≤ c.idle)
+    (pre post : List In) :
+    let s := (run c init pre).1
+    (∀ f, s.flight = some f → f.fin < f.start + c.block) →
+    s.now + c.block < (run c s (In.notify :: post)).1.now →
+    ∃ q, q ∈ (run c s (In.notify :: post)).2 ∧ s.now ≤ q ∧ flightEnd s ≤ q ∧ q ≤ s.now + c.block := by
+  intro s hs hd
+  have h := no_lost_wakeup_within_block_interval c hB hI (pre ++ [In.notify]) post
+  simp only [run_append, run, step, List.append_nil] at h hd ⊢
+  have h' := h (Or.inl rfl) hs (by simpa using hd)
+  simpa [flightEnd] using h'
+
 /-! ## Rate -/
 
 /-- production starts of every run are at least `min blockInterval idleInterval` apart … -/
@@ -148,6 +211,13 @@ example :
     Pending sA ∧ (sA.flight.isSome = true ∧ flightEnd sA = 3 ∧
     max sA.now (flightEnd sA) + cfgA.block < (run cfgA sA (ticks 12 3)).1.now ∧
     (run cfgA sA (ticks 12 3)).2 = [4]) := ⟨Or.inl (by decide), by decide⟩
+
+/-- `notify_within_block_interval_partial` is not vacuous: a notification during a production that
+is shorter than the block interval (3 ms of 4) — the further block starts at 4 ≤ now + block = 5. -/
+example :
+    let s := (run cfgA init (ticks 2 3)).1
+    (∃ f, s.flight = some f ∧ f.fin < f.start + cfgA.block) ∧ s.now = 1 ∧
+    (run cfgA s (In.notify :: ticks 12 3)).2 = [4] := by decide
 
 /-- a notification while waiting: consumed, then served by the next block tick (at 8), the idle
 timer (20) is not needed. -/
